@@ -86,7 +86,19 @@ func New(d *dual.DHT, opts ...Option) (*SweepingProvider, error) {
 		}
 		sweepingProviders[i], err = provider.New(dhtOpts...)
 		if err != nil {
-			return nil, err
+			// The caller gets no handle to what was started so far: close the
+			// provider of the other DHT if it is already running, then the
+			// keystore and datastore created above.
+			errs := []error{err}
+			for _, p := range sweepingProviders[:i] {
+				if p != nil {
+					errs = append(errs, p.Close())
+				}
+			}
+			for j := len(cleanupFuncs) - 1; j >= 0; j-- {
+				errs = append(errs, cleanupFuncs[j]())
+			}
+			return nil, errors.Join(errs...)
 		}
 	}
 
